@@ -291,6 +291,6 @@ def strat_sound(tier):
 
 
 PARTS = [
-    Part("soundness", run_sound, strat_sound, {"quick": 2000, "thorough": 60000}, rule=RULE),
-    Part("mutants", run_mutant, strat_mutant, {"quick": 2400, "thorough": 60000}, rule="single-fault mutants of accepted definitions"),
+    Part("soundness", run_sound, strat_sound, {"quick": 2000, "thorough": 20000}, rule=RULE),
+    Part("mutants", run_mutant, strat_mutant, {"quick": 2400, "thorough": 24000}, rule="single-fault mutants of accepted definitions"),
 ]
